@@ -214,3 +214,38 @@ def scenario_burn(c, rec):
                 "burn_interval",
                 f"after step {k} (epoch {k * dt}s) the truth state differs from the reference with thrust only in [{ts},{te}]s{' and [%d,%d]s (%s)' % (c['second']['ts'], c['second']['te'], c['second']['kind']) if c.get('second') else ''} by {dp:.3e} km, "
                 f"{dv:.3e} km/s (step {dt}s, {c['kind']} {c['mag']!r} km/s^2, {c['model']}/{c['integrator']}; a*(te-ts) = {c['mag'] * burn_s:.3e} km/s)")
+
+
+# ------------------------------------------------------------------------------------------------
+@PROP.clause("touching_api", quick=3000, thorough=30000, shards=16)
+def touching_api(c, rec):
+    """Celestial.propagate with two burns of equal thrust that touch at T equals the same call with the single merged burn (T on a fine grid: the root finder lands on T only to an ulp)"""
+    from functools import partial
+
+    from resonaate.dynamics.integration_events.finite_thrust import ScheduledFiniteBurn, eciBurn
+    from resonaate.dynamics.two_body import TwoBody
+    from resonaate.physics.time.stardate import ScenarioTime
+
+    t_touch = c["T"]
+    x0 = kepler.coe2rv(7000.0 + 35000.0 * c["high"], 0.001, 0.9, 1.0, 0.5, 0.3)
+
+    def burn(a, b):
+        return ScheduledFiniteBurn(ScenarioTime(a), ScenarioTime(b), partial(eciBurn, acc_vector=np.array([0.0, 1e-3, 0.0])), 1)
+
+    two = TwoBody(method=c["method"]).propagate(0.0, 60.0, x0.copy(), scheduled_events=[burn(2.0, t_touch), burn(t_touch, t_touch + 5.0)])
+    one = TwoBody(method=c["method"]).propagate(0.0, 60.0, x0.copy(), scheduled_events=[burn(2.0, t_touch + 5.0)])
+    rec.nontrivial([t_touch, c["method"], c["high"]])
+    dv = float(np.linalg.norm(np.asarray(two)[3:] - np.asarray(one)[3:]))
+    rec.err("touching_dv_kms", dv)
+    if dv > 1e-8:
+        raise Violation("touching_burns", f"two burns [2, {t_touch!r}] s and [{t_touch!r}, {t_touch + 5.0!r}] s deliver {dv:.3e} km/s less/more than the single burn [2, {t_touch + 5.0!r}] s ({c['method']})")
+
+
+@PROP.sweep("touching_api")
+def touching_api_cases(ctx):
+    n_total = ctx["n"] * ctx["nshards"]
+    step = 30.0 / 3000 if n_total <= 3000 else 90.0 / n_total
+    for k in range(n_total):
+        if k % ctx["nshards"] != ctx["shard"]:
+            continue
+        yield {"T": round(8.0 + step * k, 6), "method": ("RK45", "DOP853")[k % 2], "high": (k // 2) % 2}
